@@ -59,6 +59,13 @@ type Ctx struct {
 	Notes        []string
 	Exhaustive   bool
 	MaxReplays   int
+
+	// Journal: before an execution that may kill the process (fatal stack overflow, out of memory), its
+	// replayable description is written here so that the driver can attribute the death to it.
+	JournalPath string
+	journal     *os.File
+	curInput    int64
+	Skip        map[int64]bool
 }
 
 // NewCtx builds a context.
@@ -74,8 +81,35 @@ func (c *Ctx) Mine(k int64) bool {
 	if int(k%int64(c.NShards)) != c.Shard {
 		return false
 	}
+	if c.Skip[k] {
+		c.Cap(fmt.Sprintf("input #%d skipped: it killed the worker process in a previous attempt (reported separately)", k))
+		return false
+	}
 	c.Inputs++
+	c.curInput = k
 	return true
+}
+
+// Begin journals the execution about to start.
+func (c *Ctx) Begin(v *Violation) {
+	if c.JournalPath == "" {
+		return
+	}
+	if c.journal == nil {
+		f, err := os.OpenFile(c.JournalPath, os.O_CREATE|os.O_RDWR|os.O_TRUNC, 0o644)
+		if err != nil {
+			c.JournalPath = ""
+			return
+		}
+		c.journal = f
+	}
+	v.Property = c.Prop
+	b, err := json.Marshal(J{"k": c.curInput, "violation": v})
+	if err != nil {
+		return
+	}
+	_ = c.journal.Truncate(0)
+	_, _ = c.journal.WriteAt(b, 0)
 }
 
 // Thorough reports the tier.
